@@ -345,7 +345,7 @@ class Trunc(ReadBase):
             for _ in range((14 if label.startswith('pax') else 5) if tier == 'quick' else 40):
                 ops.append(f'run blk={blk} src={src} cons=A trunc={rng.randrange(0, size)} fault=-')
             # headers, trailers, tables of contents and central directories sit at the two ends
-            for _ in range(6 if tier == 'quick' else 40):
+            for _ in range(12 if tier == 'quick' else 60):
                 t = rng.choice([f'e{rng.randrange(1, 600)}', f'e{rng.randrange(1, 600)}', f'e{rng.randrange(1, 64)}', str(rng.randrange(0, 700))])
                 ops.append(f'run blk={blk} src={src} cons=A trunc={t} fault=-')
             for _ in range(3 if tier == 'quick' else 12):
